@@ -130,11 +130,13 @@ def confirm_and_report(pid, h, case, log, died):
             if rc != 0:
                 fails += 1
     core.log(f"[{pid}] failing case saved to {path} (log {logpath}); replayed 3x, failed {fails}x")
-    if fails == 3 or died:
-        # sanitizer / assertion reports are kept even when a re-run is clean
-        violation(pid, path)
-        return True
-    raise InfraError(f"failure of {h.name} did not reproduce from its explicit case {path} ({fails}/3): harness bug")
+    if fails < 3 and not died:
+        # The harnesses are deterministic functions of (tree, seed): a failure that does not reproduce from its
+        # explicit case means the library's behaviour on this input is not deterministic (uninitialised data, UB).
+        core.log(f"[{pid}] NOTE: the explicit case failed in only {fails} of 3 re-executions: non-deterministic behaviour of the code under test on this input")
+    # sanitizer / assertion reports are kept even when a re-run is clean
+    violation(pid, path)
+    return True
 
 
 def run_regressions(pid, hs):
